@@ -15,6 +15,7 @@ import z3
 
 from . import core as C
 from .core import (
+    Anything,
     BOOL,
     INT,
     REAL,
@@ -89,8 +90,9 @@ class LoopSpec:
     unroll: int -> unroll a symbolic loop this many times instead (bounded!)
     """
 
-    def __init__(self, inv=None, cand=None, havoc_extra=None, keep=None):
+    def __init__(self, inv=None, cand=None, havoc_extra=None, keep=None, qinv=None):
         self.inv = inv
+        self.qinv = qinv  # quantified invariants: qinv(L) -> list[(name, sorts, fn)]  (forall sorts. fn(*vars))
         self.cand = cand
         self.havoc_extra = havoc_extra
         self.keep = keep or ()
@@ -451,6 +453,18 @@ class Executor:
         raise PyRaise("NameError", n.id)
 
     def e_JoinedStr(self, n, fr):
+        # f"{s}" of a string s (python str or an opaque string payload registered in
+        # st.ghost['str_terms'], see lib/ext_logging.py) is s itself; every other
+        # f-string is an opaque text
+        if len(n.values) == 1 and isinstance(n.values[0], ast.FormattedValue):
+            fv = n.values[0]
+            if fv.conversion == -1 and fv.format_spec is None and _is_pure(fv.value):
+                try:
+                    v = self.eval(fv.value, fr)
+                except (Unsupported, PyRaise):
+                    return "<fstring>"
+                if isinstance(v, str) or (isinstance(v, Sym) and v.z.get_id() in self.st.ghost.get("str_terms", ())):
+                    return v
         return "<fstring>"
 
     def e_Tuple(self, n, fr):
@@ -705,6 +719,8 @@ class Executor:
 
         if isinstance(v, bool):
             return v
+        if isinstance(v, Anything):
+            raise Unsupported(f"branch on the result of a stubbed callee: {v.tag}")
         if isinstance(v, Sym):
             return self.st.branch(C.as_bool(v))
         if v is None:
@@ -728,6 +744,8 @@ class Executor:
     def getattr(self, v, name):
         from .tensor import Tensor
 
+        if isinstance(v, Anything):
+            return Anything(f"{v.tag}.{name}")
         if isinstance(v, Obj):
             if name in v.fields:
                 return v.fields[name]
@@ -844,6 +862,8 @@ class Executor:
     def getitem(self, v, idx):
         from .tensor import Tensor
 
+        if isinstance(v, Anything):
+            return Anything(f"{v.tag}[]")
         if isinstance(v, (list, tuple)):
             if isinstance(idx, slice):
                 return v[self._cslice(idx)]
@@ -859,6 +879,8 @@ class Executor:
             except IndexError:
                 raise PyRaise("IndexError", "list index out of range")
         if isinstance(v, dict):
+            if type(v).__name__ == "InfoDict":
+                return Anything("info[]")
             if isinstance(idx, Sym):
                 raise Unsupported("symbolic dict key")
             try:
@@ -976,6 +998,8 @@ class Executor:
                 return r[0]
         if isinstance(fn, Builtin):
             return fn.fn(self, *args, **kwargs)
+        if isinstance(fn, Anything):
+            return Anything(f"{fn.tag}()")
         if isinstance(fn, Closure):
             stub = self.shared.stubs.get(fn.qualname)
             if stub is not None:
@@ -988,6 +1012,9 @@ class Executor:
             kw.update(kwargs)
             return self._call(fn.func, list(fn.args) + list(args), kw)
         if isinstance(fn, ClassInfo):
+            stub = self.shared.stubs.get(fn.qualname)
+            if stub is not None:
+                return stub(self, *args, **kwargs)
             return self.instantiate(fn, args, kwargs)
         if isinstance(fn, NamedTupleType):
             vals = list(args)
@@ -1015,6 +1042,10 @@ class Executor:
                     return self._call(h, args, kwargs)
             raise PyRaise("TypeError", f"{fn!r} is not callable")
         if isinstance(fn, LibNS):
+            from .lib import _has_anything
+
+            if _has_anything(args) or _has_anything(tuple(kwargs.values())):
+                return Anything(fn.path)
             raise Unsupported(f"no model for library function {fn.path}")
         if isinstance(fn, Opaque) and fn.tag == "exception_class":
             return Opaque("exception", (fn.payload, args))
@@ -1266,6 +1297,8 @@ class Executor:
     def unpack(self, v, n, starred=False):
         from .tensor import Tensor
 
+        if isinstance(v, Anything):
+            return [Anything(f"{v.tag}[{k}]") for k in range(n)]
         if isinstance(v, Tensor):
             vals = v.unpack_axis0()
         else:
@@ -1335,8 +1368,8 @@ class Executor:
         it = self.eval(s.iter, fr)
         rng = self.shared.lib.as_symbolic_range(self, it)
         if rng is not None:
-            lo, hi = rng
-            return self.cut_loop(s, fr, ("range", lo, hi))
+            # (lo, hi) or (lo, hi, elem): elem(k) is the loop target's value at position k
+            return self.cut_loop(s, fr, ("range",) + tuple(rng))
         items = self.iterate(it)
         broke = False
         for x in items:
@@ -1405,6 +1438,17 @@ class Executor:
             # it <= max(lo, hi)
             st.assume(z3.Or(C.as_bool(C.compare("<=", it, hi)), C.as_bool(C.compare("==", it, lo))))
             L.it = it
+            # Python: after k >= 1 iterations the loop variable holds the last
+            # value it was given (it - 1); with zero iterations it keeps its
+            # previous binding.  Exact when the body does not rebind it.
+            if isinstance(s.target, ast.Name) and s.target.id not in _assigned_names(s.body):
+                t = s.target.id
+                prev = entry.get(t, UNBOUND)
+                last = C.binop("-", it, 1)
+                if prev is UNBOUND or prev is None or not isinstance(prev, (int, Sym)) or isinstance(prev, bool):
+                    fr.vars[t] = last
+                else:
+                    fr.vars[t] = C.ite(C.compare(">", it, lo), last, prev)
         if not discover:
             self._assume_inv(spec, L, tag)
         # (iii) condition
@@ -1416,7 +1460,7 @@ class Executor:
                 go = self.truth(self.eval(s.test, fr))
             if go:
                 if kind[0] == "range":
-                    self.assign(s.target, it, fr)
+                    self.assign(s.target, kind[3](it) if len(kind) > 3 else it, fr)
                 broke = False
                 try:
                     self.exec_block(s.body, fr)
@@ -1446,10 +1490,21 @@ class Executor:
         if spec.inv is not None:
             for name, z in spec.inv(L):
                 self.st.oblige(f"{tag}.inv.{when}.{name}", z, assume_after=False)
+        if getattr(spec, "qinv", None) is not None:
+            # Skolemised goal over the CURRENT values; assuming it afterwards is sound (same values)
+            for name, sorts, fn in spec.qinv(L):
+                self.st.oblige_forall(f"{tag}.inv.{when}.{name}", sorts, fn, hint="q")
         if spec.cand is not None:
             alive = self.shared.houdini.setdefault(L.key, None)
+            if when == "entry":
+                L.checked_at_entry = set()
             for name, z in spec.cand(L):
+                self.shared.all_cands.setdefault(L.key, set()).add(name)
                 if alive is not None and name not in alive:
+                    continue
+                if when == "entry":
+                    L.checked_at_entry.add(name)
+                elif name not in getattr(L, "checked_at_entry", ()):
                     continue
                 from .state import prove
 
@@ -1464,12 +1519,19 @@ class Executor:
         if spec.inv is not None:
             for name, z in spec.inv(L):
                 self.st.assume(z)
+        if getattr(spec, "qinv", None) is not None:
+            for name, sorts, fn in spec.qinv(L):
+                self.st.assume_forall(sorts, fn, f"{tag}.inv.{name}")
         if spec.cand is not None:
             alive = self.shared.houdini.get(L.key)
             for name, z in spec.cand(L):
                 if alive is not None and name not in alive:
                     continue
                 if name in self.shared.houdini_dead.get(L.key, ()):
+                    continue
+                if name not in getattr(L, "checked_at_entry", ()):
+                    # a candidate that was not checked on entry must not be assumed
+                    self.shared.houdini_dead.setdefault(L.key, set()).add(name)
                     continue
                 self.st.assume(z)
 
